@@ -12,7 +12,7 @@ import (
 var nestedPrefixGroups = [][][2]string{
 	{{"sort", "deriveSort"}, {"set", "deriveSortedSet"}},
 	{{"equal", "eq"}, {"compare", "eqc"}},
-	{{"min", "m"}, {"max", "mx"}, {"mem", "mxe"}},
+	{{"min", "mn"}, {"max", "mnx"}, {"mem", "mnxe"}},
 	{{"keys", "k_"}, {"sort", "k_s"}},
 	{{"hash", "deriveH"}, {"clone", "deriveHC"}},
 	{{"fmap", "fm"}, {"filter", "fmf"}},
